@@ -200,7 +200,14 @@ class Check:
     def scratch_spec(self, files=None):
         self._n += 1
         d = os.path.join(self.tmp, "spec%d" % self._n)
-        shutil.copytree(SPEC, d)
+        os.makedirs(d)
+        for fn in os.listdir(SPEC):
+            # specs, configs and catalogue data only; stray TLC litter (states/, *_TTrace_*) is not copied
+            if fn.endswith((".tla", ".cfg", ".json")) and "_TTrace_" not in fn:
+                try:
+                    shutil.copyfile(os.path.join(SPEC, fn), os.path.join(d, fn))
+                except OSError:
+                    pass
         for name, src in (files or {}).items():
             dst = os.path.join(d, name)
             if isinstance(src, (bytes, bytearray)):
